@@ -123,7 +123,19 @@ def scenario(ctx, p):
     D = [mk_well(ctx, f"d{i}") for i in range(n)]
     V = [ctx.real(f"v{i}", 0, common.BIG) for i in range(n)]
     c.update(S=S, D=D, V=V)
-    return partition_by_column(S, D, V, p["mode"])
+    # the arguments are Iterables: lists, tuples or one-shot iterators / generators
+    arg = ctx.choose("argkind", ["lists", "tuples", "iter-sources", "iter-destinations", "generators"]) if n >= 2 else "lists"
+    c["argkind"] = arg
+    aS, aD, aV = list(S), list(D), list(V)
+    if arg == "tuples":
+        aS, aD, aV = tuple(S), tuple(D), tuple(V)
+    elif arg == "iter-sources":
+        aS = iter(list(S))
+    elif arg == "iter-destinations":
+        aD = iter(list(D))
+    elif arg == "generators":
+        aS, aD, aV = (x for x in list(S)), (x for x in list(D)), (x for x in list(V))
+    return partition_by_column(aS, aD, aV, p["mode"])
 
 
 def colnum(ctx, w):
@@ -214,4 +226,4 @@ def describe(ctx, p, outcome):
     c = ctx.ctx
     if p["part"] == "optimize":
         return f"  optimize_partition_by({c.get('skind')}, {c.get('dkind')}, {c.get('mode')!r}) -> {outcome}"
-    return f"  sources={[str(x) for x in c['S']]} destinations={[str(x) for x in c['D']]} volumes={c['V']} mode={p['mode']}\n  -> {outcome[1]!r}"
+    return f"  arguments as {c.get('argkind')}; sources={[str(x) for x in c['S']]} destinations={[str(x) for x in c['D']]} volumes={c['V']} mode={p['mode']}\n  -> {outcome[1]!r}"
